@@ -118,7 +118,10 @@ func runC08(c *core.Ctx) {
 		}
 		dt := cv.D.TypeInfo
 		b := dt.Bits
-		sc := newScanner(cv)
+		sc := newScannerCh(cv, 1+ti%3)
+		preludeCheck(c, sc, name, caseID, math.Float64bits(0), math.Float64bits(-0.75), math.Float64bits(0.75),
+			func(raw uint64) bool { return amp(dt, raw) == 0 })
+		chunkNo := 0
 		var prevX float64
 		var prevA int64
 		have, first := false, true
@@ -129,6 +132,14 @@ func runC08(c *core.Ctx) {
 				return
 			}
 			out := sc.conv(in)
+			if chunkNo++; !t.full || chunkNo%8 == 1 {
+				if idx, got := sc.orderCheck(in, out); idx >= 0 {
+					viol++
+					c.Violate(name+"|order-dependence", caseID, fmt.Sprintf("input %v converts to amplitude %d in an ascending buffer and to %d when the buffer is reversed", math.Float64frombits(in[idx]), amp(dt, out[idx]), amp(dt, got)),
+						map[string]any{"fn": name, "input": math.Float64frombits(in[idx]), "position": idx, "buffer_len": len(in), "channels": sc.ch})
+				}
+				c.Obs("chunks_also_converted_in_reverse_order", 1)
+			}
 			for i, raw := range in {
 				x := math.Float64frombits(raw)
 				da := amp(dt, out[i])
